@@ -19,7 +19,10 @@ def code(s, c, r):
 class Book:
     def __init__(self, rng, failing=True):
         self.rng = rng
-        TITLES[:] = rng.choice(TITLE_SETS)     # in place: the module-level list is what formulas and addressing read (one workbook at a time)
+        chosen = list(rng.choice(TITLE_SETS))
+        if rng.random() < 0.5:
+            rng.shuffle(chosen)                 # the same titles at other positions than in an earlier workbook of this process: a title means the sheet of THIS workbook
+        TITLES[:] = chosen                      # in place: the module-level list is what formulas and addressing read (one workbook at a time)
         self.ns = rng.randint(1, 3)
         self.w = [rng.randint(2, 4) for _ in range(self.ns)]
         self.h = [rng.randint(2, 5) for _ in range(self.ns)]
